@@ -66,7 +66,7 @@ def gen_case(rng, idx, tier):
     spec = DR.gen(rng, tier)
     ops = {'second_amb': bool(rng.random() < 0.5), 'redefine': bool(rng.random() < 0.5),
            'mid': bool(rng.random() < 0.7), 'reuse': bool(rng.random() < 0.5),
-           'late_dvar': bool(rng.random() < 0.3)}
+           'late_dvar': bool(rng.random() < 0.12)}
     nz = spec['nz']
     wrong = []
     for s in range(spec['S']):
